@@ -31,6 +31,9 @@ _P = "doi:10.5063/F1"
 DERIVED = ([_P, _hl.sha256(_P.encode()).hexdigest(), _hl.sha256((_P + "ns").encode()).hexdigest()],
            [None, _hl.sha256(_P.encode()).hexdigest()])
 SETS_QUICK.append(DERIVED)
+# identifiers whose digests begin alike, in a shallow store (depth 1, width 1): they live in the same shard directories
+NEIGHBOURS = (["p4", "p19", "\ufeffp4"], [None, "c"])
+SETS_QUICK.append(NEIGHBOURS)
 SETS_QUICK.append((["doi%3A10.5063%2FF1", "100%", "a%sb{0}"], [None, "%s", "%(x)s"]))     # template metacharacters
 # identifiers so long that one object's reference list exceeds 1 MiB (thorough tier, object calls only)
 HUGE = (["h" * 600000 + "q", "h" * 600000, "z"], [None])
@@ -85,6 +88,8 @@ def main(tier, replay_payload=None):
     def args_for(n):
         pids, fmts = sets[n]
         a = dict(pids=pids, contents=[b"shared", C_MULTI], formats=fmts, sym_dirs=False)
+        if sets[n] is NEIGHBOURS:
+            a.update(depth=1, width=1)
         if sets[n] is PATHLIKE:
             a["docs"] = (b"shared", D_MULTI)
         return a
